@@ -24,7 +24,7 @@ def build_variant(k, vk, n, dpos, mpos, dty, mark_single, with_mut):
                 ty = 'u8' if (k + i + n) % 3 else REFTY['mutref']
             if n > 1 or mark_single:
                 a['DerefMut'] = {}
-        f = F(ty, S.FNAMES[i] if vk == 'named' else None, **a)
+        f = F(ty, S.fname(i, k, n) if vk == 'named' else None, **a)
         f.role = ('d' if i == dpos else '') + ('m' if with_mut and i == mpos else '')
         f.dty = dty if i == dpos else 'val'
         fields.append(f)
